@@ -314,6 +314,28 @@ def antimeridian_strip():
     return Mesh("amstrip", pts, faces, False, tags=("antimeridian",))
 
 
+def am3():
+    """three faces of different sizes crossing the antimeridian (at different latitudes, listed between and
+    around two ordinary faces) - none touches a pole."""
+    ll = [
+        (170, 0), (-170, 0), (-170, 10), (170, 10),      # 0-3
+        (175, 20),                                        # 4
+        (170, -10), (-175, -12), (165, -5),               # 5-7
+        (150, 0), (150, 10),                              # 8-9
+        (-150, 0),                                        # 10
+    ]
+    pts = [lonlat_to_xyz(a, b) for a, b in ll]
+    faces = [
+        (8, 0, 3, 9),          # ordinary quad
+        (0, 1, 2, 3),          # crossing quad
+        (1, 10, 2),            # ordinary triangle
+        (3, 2, 4),             # crossing triangle
+        (5, 6, 1, 0, 7),       # crossing pentagon
+    ]
+    faces = [orient_ccw(pts, f) for f in faces]
+    return Mesh("am3", pts, faces, False, tags=("antimeridian",))
+
+
 def pole_cap():
     """hexagon enclosing the north pole + ring of quads, node count 18."""
     ring1 = [lonlat_to_xyz(-180 + 60 * i + 5, 80) for i in range(6)]
@@ -377,7 +399,7 @@ _EXTRA = {}
 def extra():
     """meshes used by later checks only (not part of the C02/C03 catalogue)."""
     if not _EXTRA:
-        for m in [sizes38(), cubesphere(3), single(4), single(6), single(8)]:
+        for m in [sizes38(), cubesphere(3), single(4), single(6), single(8), am3()]:
             _EXTRA[m.name] = m
     return _EXTRA
 
